@@ -54,6 +54,12 @@ package internal
 //@   let k = bytes2str(ev.Kv.Key)
 //@   loop 1 iteration-ensures [put-stored] ev.Type == 0 ==> has(c.values, key) && has(c.values[key], k) && c.values[key][k] == bytes2str(ev.Kv.Value)
 //@   loop 1 iteration-ensures [delete-removed] ev.Type == 1 && at_head(has(c.values, key)) ==> !has(c.values[key], k)
+// every put and every delete is announced to EVERY listener of the prefix (also a put that repeats what the record
+// already holds: in exclusive mode the most recent publisher of a value must be learnt even when its pair is known)
+//@   loop 2 iteration-ensures [listener-told-of-the-put] calls(l.OnAdd) == 1 && arg(l.OnAdd, 0).Key == bytes2str(event.Kv.Key) && arg(l.OnAdd, 0).Val == bytes2str(event.Kv.Value) && l == at_head(listeners[rangeindex + 1])
+//@   loop 3 iteration-ensures [listener-told-of-the-delete] calls(l.OnDelete) == 1 && arg(l.OnDelete, 0).Key == bytes2str(event.Kv.Key) && l == at_head(listeners[rangeindex + 1])
+//@   loop 1 iteration-ensures [put-announcement-loop-reached] ev.Type == 0 ==> loopreached(2)
+//@   loop 1 iteration-ensures [delete-announcement-loop-reached] ev.Type == 1 ==> loopreached(3)
 //@   loop 1 iteration-ensures [delete-only-that-key] ev.Type == 1 && at_head(has(c.values, key)) ==> forallk(s, string, s != k ==> has(c.values[key], s) == at_head(has(c.values[key], s)))
 
 // getCurrent (what a newly added listener is replayed): every entry of the record for the prefix contributes
